@@ -4,10 +4,14 @@ import Stgutg.Proofs.GenTieUe
 import Stgutg.Proofs.GenTieCount
 import Stgutg.Proofs.GenTieKdf
 import Stgutg.Proofs.GenTieConvert
+import Stgutg.Proofs.GenTieNas
+import Stgutg.Proofs.GenTieKeys
 /-!
   The ties by translation, all groups (see DESIGN 2.2): for each small pure Go function listed in
   harness/cmd/gen/pure.go the definition regenerated from the source text on every run (Gen/Pure*.lean) is proved
   equal to the hand model the property theorems speak about. One module per group so that a change of one
   function breaks only the properties that depend on it:
     GenTieSuci (C11)  GenTieMin (C02)  GenTieUe (C16)  GenTieCount (C06)  GenTieKdf (C05)  GenTieConvert (C17, C11)
+    GenTieNas (C06, C10: NASEncode, NASDecode, EncodeNasPduWithSecurity, GetNasPdu — the extended grammar of pure_nas.go)
+    GenTieKeys (C05: DerivateKamf, DerivateAlgKey)
 -/
